@@ -10,7 +10,7 @@ import (
 )
 
 // TestFaultAccounting re-uses the C02 scenarios with secret accounting on: every
-// single metastore/KMS fault position, every AEAD call and every secret allocation of
+// single metastore/KMS fault position, every AEAD call, every secret allocation and every open / re-protect of a key secret of
 // the operation is failed in turn.
 func TestFaultAccounting(t *testing.T) {
 	kit.Check(t, 150, 1600, func(t *rapid.T) {
@@ -20,7 +20,7 @@ func TestFaultAccounting(t *testing.T) {
 			c.Faults = faults
 			return &c
 		}
-		seq, aeadN, allocN := runAccounted(t, clone())
+		seq, aeadN, allocN, readsN := runAccounted(t, clone())
 		for i, c := range seq {
 			for _, k := range world.ApplicableFaults(c) {
 				runAccounted(t, clone(world.FaultAt{Target: "ext", Rel: i, Kind: k}))
@@ -32,6 +32,11 @@ func TestFaultAccounting(t *testing.T) {
 		for i := 0; i < allocN; i++ {
 			runAccounted(t, clone(world.FaultAt{Target: "alloc", Rel: i}))
 		}
+		// a key secret that cannot be opened for reading / cannot be re-protected after its callback ran
+		for i := 0; i < readsN; i++ {
+			runAccounted(t, clone(world.FaultAt{Target: "sec-open", Rel: i}))
+			runAccounted(t, clone(world.FaultAt{Target: "sec-release", Rel: i}))
+		}
 	})
 }
 
@@ -41,7 +46,7 @@ func failSc(t *rapid.T, sc *world.FaultScenario, format string, args ...any) {
 	t.Fatalf("C09 violated: %s\n  scenario: %s\n  calls of the operation: %v\n%s", msg, sc.Describe(), sc.OpCalls(), sc.W.Describe())
 }
 
-func runAccounted(t *rapid.T, sc *world.FaultScenario) ([]kit.Call, int, int) {
+func runAccounted(t *rapid.T, sc *world.FaultScenario) ([]kit.Call, int, int, int) {
 	mismatch := map[string]bool{}
 	var rec *world.Rec
 	ev := sc.Exec(t, func(sc *world.FaultScenario) *world.Event {
@@ -59,6 +64,7 @@ func runAccounted(t *rapid.T, sc *world.FaultScenario) ([]kit.Call, int, int) {
 	calls := sc.OpCalls()
 	aeadN := w.AEAD.Len() - sc.ABase
 	allocN := w.Secrets.Count() - sc.SBase
+	readsN := w.Secrets.Reads() - sc.RBase
 	for _, fp := range w.MismatchParents(ev) {
 		mismatch[fp] = true
 	}
@@ -122,5 +128,5 @@ func runAccounted(t *rapid.T, sc *world.FaultScenario) ([]kit.Call, int, int) {
 	if len(sc.Faults) > 0 {
 		kit.Rec.Label("fault:" + sc.Faults[0].Target + ":" + outcome)
 	}
-	return calls, aeadN, allocN
+	return calls, aeadN, allocN, readsN
 }
